@@ -288,6 +288,7 @@ func Validate(b []byte) (rep *Report) {
 	c.checkSelectionStructured()
 	c.checkIOUnique()
 	c.checkBlockNesting()
+	c.checkImageExtra()
 	return rep
 }
 
